@@ -322,6 +322,24 @@ pub struct Restored {
     pub queues: Vec<(u32, String)>,
 }
 
+/// The numeric crash limit shared by every submit of the scenario (None: default / never /
+/// unlimited / mixed).
+fn scenario_crash_limit(sc: &Scenario) -> Option<u32> {
+    let mut found: Option<u32> = None;
+    for c in &sc.clients {
+        for r in c {
+            if let Req::Submit(s) = r {
+                let l: u32 = s.crash_limit.parse().ok()?;
+                if found.is_some_and(|f| f != l) {
+                    return None;
+                }
+                found = Some(l);
+            }
+        }
+    }
+    found
+}
+
 fn restore_scenario(sc: &Scenario) -> Scenario {
     let mut s = sc.clone();
     s.name = format!("{}+restart", sc.name);
@@ -530,6 +548,12 @@ impl Checker<'_> {
                 if terminal(t.status) {
                     if sub.is_some() {
                         self.v("C10", "terminal-task-resubmitted", format!("status-{}", t.status), format!("task {jid}@{tid} recorded {} but handed to the scheduler again", t.status), case.clone());
+                        if t.status == "canceled" {
+                            self.v("C08", "canceled-task-runs-after-restart", "resubmitted".into(), format!("task {jid}@{tid} is recorded canceled (the cancel was answered) but the restarted server hands it to the scheduler again"), case.clone());
+                        }
+                        if t.status == "aborted" {
+                            self.v("C14", "aborted-task-runs-after-restart", "resubmitted".into(), format!("task {jid}@{tid} is recorded aborted but the restarted server hands it to the scheduler again"), case.clone());
+                        }
                     }
                     continue;
                 }
@@ -637,6 +661,7 @@ impl Checker<'_> {
         if rq != reference.live_queues {
             self.v("C10", "queues-differ", "queues".into(), format!("restored queues {rq:?}, recorded live queues {:?}", reference.live_queues), case.clone());
         }
+        let restored_submitted: BTreeMap<(u32, u32), u32> = restored.submitted.iter().map(|(k, v)| (*k, v.2)).collect();
         // ---- continue: the restored tasks run to completion, nothing finished runs again ----
         let finished_before: BTreeSet<(u32, u32)> = reference
             .jobs
@@ -714,6 +739,99 @@ impl Checker<'_> {
         };
         let _ = catch_unwind(AssertUnwindSafe(move || sys.dispose()));
         crate::common::take_swallowed_panic();
+        // ---- C07 after the restart: one more failure loss while a restored task runs ----
+        // (the fault-free continuation above never exercises the crash limit again; a task
+        // restored with c recorded crashes must fail at the next failure loss iff c + 1 reaches
+        // its limit, whatever c was when the server stopped)
+        let failure_reason = self
+            .sc
+            .kill_reasons
+            .iter()
+            .position(|r| r == "ConnectionLost" || r == "HeartbeatLost");
+        if let (Some(limit), Some(reason_idx)) = (scenario_crash_limit(self.sc), failure_reason) {
+            let targets: Vec<((u32, u32), u32)> = restored_submitted
+                .iter()
+                .filter(|(_, c)| **c >= 1)
+                .map(|(k, c)| (*k, *c))
+                .collect();
+            for (key, c) in targets {
+                self.restores += 1;
+                let RestoreOutcome::Ok(b) = restore_from(self.sc, &path) else { continue };
+                let (mut sys2, _) = *b;
+                let outcome = catch_unwind(AssertUnwindSafe(|| {
+                    // run until everything that can start has started and was reported
+                    let mut steps = 0;
+                    loop {
+                        let next = sys2.enabled().into_iter().find(|e| {
+                            !e.is_deviation()
+                                && !matches!(e, Ev::TimeLimit(_) | Ev::Client(_) | Ev::EndOk(_) | Ev::EndErr(_) | Ev::EndStopped(_))
+                        });
+                        let Some(ev) = next else { break };
+                        sys2.apply(ev);
+                        sys2.take_obs();
+                        steps += 1;
+                        if steps > 200 {
+                            break;
+                        }
+                    }
+                    // lose the worker that runs the target task
+                    let slot = {
+                        let l = sys2.launcher.borrow();
+                        l.execs
+                            .iter()
+                            .find(|e| {
+                                matches!(e.state, crate::sim::system::ExecState::Running)
+                                    && e.task.job_id().as_num() == key.0
+                                    && e.task.job_task_id().as_num() == key.1
+                            })
+                            .map(|e| e.slot)
+                    };
+                    let Some(slot) = slot else { return None };
+                    sys2.apply(Ev::Kill(slot, reason_idx as u8));
+                    sys2.take_obs();
+                    let mut steps = 0;
+                    loop {
+                        let next = sys2.enabled().into_iter().find(|e| !e.is_deviation() && !matches!(e, Ev::TimeLimit(_) | Ev::Client(_)));
+                        let Some(ev) = next else { break };
+                        sys2.apply(ev);
+                        sys2.take_obs();
+                        steps += 1;
+                        if steps > 400 {
+                            break;
+                        }
+                    }
+                    let d = hq_digest(&sys2);
+                    d.jobs
+                        .iter()
+                        .find(|j| j.id == key.0)
+                        .and_then(|j| j.tasks.iter().find(|t| t.0 == key.1))
+                        .map(|t| t.1.to_string())
+                }));
+                let _ = catch_unwind(AssertUnwindSafe(move || sys2.dispose()));
+                crate::common::take_swallowed_panic();
+                if let Ok(Some(status)) = outcome {
+                    let must_fail = c + 1 >= limit;
+                    if must_fail && status != "failed" {
+                        self.v(
+                            "C07",
+                            "not-failed-at-limit-after-restart",
+                            format!("restored-count={c}-limit={limit}"),
+                            format!("task {}@{} was restored with {c} recorded crashes (limit {limit}); after one more failure loss while it ran it is '{status}', not failed", key.0, key.1),
+                            case.clone(),
+                        );
+                    }
+                    if !must_fail && status == "failed" {
+                        self.v(
+                            "C07",
+                            "failed-below-limit-after-restart",
+                            format!("restored-count={c}-limit={limit}"),
+                            format!("task {}@{} was restored with {c} recorded crashes (limit {limit}); one more failure loss failed it below its limit", key.0, key.1),
+                            case.clone(),
+                        );
+                    }
+                }
+            }
+        }
         // ---- restart of the restarted server ----
         if second_level && let Some(recs) = second_records {
             let mut all: Vec<Event> = prefix.to_vec();
